@@ -13,7 +13,11 @@ A *pairs case* is
    place into 'cell' of the case>, 'warm': 'none'|'dmag'|'dvect'|'both' (judged calls on the box before it is changed),
    'wform': 'func'|'sys', 'wpbc': 0..7, 'setpos': <public way of giving the System its positions for the new cell>,
    'peek': bool (derived Box quantities read before and after the change), 'ghost': bool (a short-lived other Box is used and
-   dropped first)}}
+   dropped first)},
+   'fdtype': 'f64'|'f32'|'f16' (floating dtype the positions are STORED / passed in: for 'f32'/'f16' the oracle rounds every
+   Cartesian position to that dtype first, so the stored values are exact and the expected separation is exact; Atoms keeps
+   the dtype), 'after': 0..3 (bit 0: a judged call with ANOTHER number of pairs, bit 1: a judged single-pair call, after the
+   8 judged calls of the case and before every result handed out earlier is compared with its snapshot)}
 with N0, N1 in {1, N} (one-to-one, one-to-many either side, many-to-many).  'p0'/'p1' are relative coordinates of
 the cell (Cartesian = s.V + origin, computed by the oracle) unless 'cart' is true, in which case they are Cartesian
 in units of cell['scale'] (the oracle multiplies them by it).
@@ -63,6 +67,8 @@ _PBCSPELL = st.sampled_from(['list', 'tuple', 'array'])
 _ROUTE = st.sampled_from(['func', 'func', 'func', 'func', 'sys_pos', 'sys_idx', 'sys_idx', 'sys_mix'])
 _IDX = st.sampled_from(['int', 'list', 'array', 'slice', 'neg', 'npint', 'mask'])
 _BOOL = st.booleans()
+_FDTYPE = st.sampled_from(['f64', 'f64', 'f64', 'f64', 'f64', 'f32', 'f32', 'f16'])
+_AFTER = st.integers(0, 3)
 # overall length scale 10^k of the cell, its origin and the positions; index 0 (k = 0) is what cases shrink to
 _SCALE_K = (0, 0, 0, 0, 0, 0, 0, 0, 0, 0, 0, 0, -10, -10, -10, -12, -11, -9, -8, -7, -6, -5, -4, -3, -2, -1, 1, 2, 3, 4, 5, 6)
 _SCALE = st.integers(0, len(_SCALE_K) - 1).map(lambda i: 10.0 ** _SCALE_K[i])
@@ -250,7 +256,7 @@ def pairs_cases(draw, incell_share=7, near_share=0, routes=True, allow_cart=True
     return {'cell': cell, 'cart': cart, 'p0': p0, 'p1': p1, 'flat0': n0 == 1 and draw(_BOOL),
             'flat1': n1 == 1 and draw(_BOOL), 'spell': draw(_SPELL), 'pbcspell': draw(_PBCSPELL),
             'route': route, 'idx': draw(_IDX), 'kind': kind, 'postype': draw(_POSTYPE) if cart else 'float',
-            'pbcrot': draw(_PBCROT), 'magfirst': draw(_BOOL), 'hist': hist}
+            'pbcrot': draw(_PBCROT), 'magfirst': draw(_BOOL), 'hist': hist, 'fdtype': draw(_FDTYPE), 'after': draw(_AFTER)}
 
 
 @functools.lru_cache(maxsize=None)
@@ -276,6 +282,9 @@ _BUILD = st.sampled_from(['abs', 'abs', 'scale', 'safecopy', 'sharedbox'])
 _SHIFT3 = st.lists(st.integers(-1, 1), min_size=3, max_size=3)
 _DHOW = st.sampled_from(['vects=', 'set_vects', 'set_avect', 'sys_box_set', 'sys_box_set_scale', 'sys_box_set_scale', 'wrap'])
 _DSETPOS = st.sampled_from(['slice', 'attr', 'prop', 'prop_scaled', 'view', 'keep'])
+# floating dtype in which the positions of system 0 / system 1 are stored (Atoms keeps a float32 / float16 pos dtype)
+_FSTORE = st.sampled_from([None, None, None, None, None, None, ['f32', 'f32'], ['f32', 'f32'], ['f32', 'f64'], ['f64', 'f32'],
+                           ['f16', 'f16'], ['f16', 'f32']])
 
 
 def _whole(x):
@@ -289,7 +298,10 @@ def displacement_cases(draw):
     system 'itype' ('0', '1', 'both') are whole numbers handed to Atoms in the integer form 'iform' (Atoms then STORES
     them as integers); 'build': how the two System objects are made; 'hist': None or the cells the two Box objects describe
     first ('cell0', 'cell1'), whether displacement() is called (and judged) in that state, and the public ways in which the
-    same Box / System objects are then turned into the systems of the case."""
+    same Box / System objects are then turned into the systems of the case; 'fstore': None or the floating dtypes
+    ('f64'|'f32'|'f16') in which the two systems STORE their positions (the oracle judges the positions the systems really
+    hold, which are exact numbers); 'after': whether displacement() is also called (and judged) for the other reference cells
+    before every result handed out earlier is compared with its snapshot."""
     c0 = draw(_CELLS_MILD if draw(_BOOL) else _CELLS)
     mode = draw(_MODE)
     if mode == 'same':
@@ -342,4 +354,6 @@ def displacement_cases(draw):
     if case['hist'] is not None:
         for k in ('cell0', 'cell1'):
             case['hist'][k] = dict(case['hist'][k], scale=scale if draw(_TEN) < 8 else draw(_SCALE))
+    case['fstore'] = draw(_FSTORE)
+    case['after'] = draw(_BOOL)
     return case
